@@ -127,6 +127,11 @@ def afm_model(g, n):
                 else:
                     elems = rng.sample(["aa", "bb", "low", "High", "inf", "nan", "infinity", 3, 7, 0, 1.5, 2.25, 10.0,
                                     2**53 + 1, 10**22 + 7, 2**62 - 1, 1e16, 1.5e17, 1e22, '"cafe\u0301"', '"caf\u00e9"', '"\u212b"', '"x y"'], rng.randint(1, 3))
+                    if rng.random() < 0.15:
+                        # values that are equal under == and different in AFM (an integer beside the real of the same value)
+                        k = rng.choice([1, 2, 7, 10])
+                        elems = rng.sample([k, float(k), k + 0.5, k + 1], 4)
+                        g.count("afm_domain", "int-beside-equal-real")
                     dom = dict(ranges=[], elems=elems)
                     dv, nv = elems[0], rng.choice(["none", 0, 2])
                 f["attrs"].append(spec.A(an, default=dv, domain=dom, null=nv))
